@@ -88,8 +88,21 @@ class FakeClient(object):
         return {'Body': _Body(st.objects[Key][0])}
 
 
-class ReadFault(Exception):
-    """a read request the store answers with an error (throttling, a connection reset)"""
+try:
+    from botocore.exceptions import ClientError as _StoreError
+except Exception:      # pragma: no cover
+    _StoreError = Exception
+
+
+class ReadFault(_StoreError):
+    """a read request the store answers with an error (throttling: what boto3 raises for a 503 SlowDown answer)"""
+
+    def __init__(self, message='injected'):
+        if _StoreError is Exception:
+            Exception.__init__(self, message)
+        else:
+            _StoreError.__init__(self, {'Error': {'Code': 'SlowDown', 'Message': message},
+                                        'ResponseMetadata': {'HTTPStatusCode': 503}}, 'GetObject')
 
 
 def _tick_read(st):
